@@ -139,17 +139,17 @@ namespace igris
 
     std::string base64url_decode(const std::string &s)
     {
-        std::string ret = base64_encode(s);
-        auto it = ret.begin();
-        auto eit = ret.end();
+        std::string tmp = s;
+        auto it = tmp.begin();
+        auto eit = tmp.end();
         for (;it != eit; ++it)
         {
-            if (*it == '+')
-                *it = '-';
-            if (*it == '/')
-                *it = '_';
+            if (*it == '-')
+                *it = '+';
+            if (*it == '_')
+                *it = '/';
         }
-        return ret;
+        return base64_decode(tmp);
     }
 
 }
